@@ -286,6 +286,8 @@ def main():
             print(out); sys.exit(2)
         rp = json.load(open(a.replay))
         if rp.get("kind") == "proof":
+            for cmd in cfg.get("pre_cmds", []):
+                sh(cmd, cwd=ROOT, env=dict(GOENV, VERIF_REPO=REPO, VERIF_ROOT=ROOT), timeout=1200)
             pr = prove(pid, cfg, "quick")
             print(json.dumps({"broken": pr["broken"]}, indent=1))
             sys.exit(1 if pr["broken"] else 0)
@@ -362,7 +364,8 @@ def main():
             continue
         seen.add(sig)
         violation({"property": pid, "kind": "direct", "suite": f["suite"], "input": f["input"],
-                   "obs": f["obs"], "verdict": f["verdict"], "seed": seed, "tier": tier})
+                   "obs": f["obs"], "verdict": f["verdict"], "seed": seed, "tier": tier,
+                   "proof_obligations_broken": pr["broken"]})
     need_search = False
     for fname, (idx, body) in mism.items():
         need_search = True
